@@ -346,7 +346,7 @@ func runC15(c *engine.Ctx) {
 				why := ""
 				for _, cl := range closes {
 					h := engine.LoopHeader(cl.Block())
-					if h != nil && !(h.Dominates(al.Block()) && al.Block() != h) {
+					if h != nil && !h.Dominates(al.Block()) {
 						okFresh = false
 						why = "the content is allocated outside the loop that closes the proxies: all notifications share one value that the loop keeps overwriting"
 					}
